@@ -21,6 +21,10 @@ seeds = {}
 for m in sorted(glob.glob(f"{V}/seeded/*/meta.json")):
     d = json.load(open(m))
     seeds.setdefault(d["property"], []).append((os.path.basename(os.path.dirname(m)), d))
+refs = {}
+for m in sorted(glob.glob(f"{V}/refactors/*/meta.json")):
+    d = json.load(open(m))
+    refs.setdefault(d["property"], []).append((os.path.basename(os.path.dirname(m)), d))
 for p in props:
     pid = p["id"]
     out.append(f"### {pid} {p['title']}\n")
@@ -50,6 +54,10 @@ for p in props:
                 rule = d.get("detecting_rule", "")
                 out.append(f"* `{name}` {d['summary'][:220].rstrip()}… → **{'detected by ' + det if d.get('detected_by') else 'not detected'}**"
                            + (f" ({rule})" if rule else "") + (f" — {d['why_missed']}" if d.get("why_missed") else "") + "\n")
+        if pid in refs:
+            out.append("Behaviour-preserving refactorings of the anchored code (independent sub-agents; builds, package tests unchanged) — the rules must stay silent:\n")
+            for name, d in refs[pid]:
+                out.append(f"* `{name}` {d['summary'][:200].rstrip()}… → **{d.get('last_matrix_result','not run')}**\n")
     else:
         out.append(f"**Not applicable.** {na.get(pid, '')}\n")
     out.append("")
